@@ -167,6 +167,11 @@ def gen(rng, tier):
             cs.append(mk(200, m, b"/", [], b"", ["method-" + kind]))
             cs.append(mk(200, b"GET", b"/p", [(m, b" ", b"v", b"")], b"R", ["name-" + kind]))
     cs.append(mk(8192, TCHARS, b"/", [(TCHARS, b"", FV, b"")], b"", ["all-tchars", "all-vchars"]))
+    # --- heads of 0.2 .. 3.4 KiB with nothing behind them in the case: the harness sends a second, long message behind
+    # each (request level) that fits the buffer only after compaction
+    for k in (150, 300, 700, 1000, 1500, 2000, 2500, 3000, 3300, 3400):
+        cs.append(mk(8192, b"GET", b"/first", [(b"x-a", b" ", b"v" * k, b""), (b"x-b", b"", b"w", b" ")], b"", ["second-message-behind"]))
+        cs.append(mk(8192, b"DELETE", b"/f?q=%d" % k, [(b"n%d" % i, b" ", b"v" * (k // 10), b"") for i in range(10)], b"", ["second-message-behind"]))
     # --- a byte >= 0x80 at every offset of a long value: rejected (never a panic in the error path, never accepted)
     for off in list(range(60, 140)) + [255, 256, 1023, 1024]:
         for hi in (b"\xe9", b"\xc3\xa9", b"\x80"):
